@@ -750,7 +750,7 @@ def native_sweep(tkey, op, check="result"):
 
 def replay_cell(w):
     if w.get("kind") == "roundtrip":
-        return native_roundtrip(w["type"], w["how"], w["payload"])
+        return native_roundtrip(w["type"], w["how"], w["payload"], w.get("protocol"))
     if w.get("kind") == "tests":
         return native_tests(w["type"], w["payload"])
     ok = w.get("other")
@@ -856,7 +856,7 @@ def native_tests(tkey, payload):
 SLOTS = ("_undefined_hint", "_undefined_obj", "_undefined_name", "_undefined_exception")
 
 
-def native_roundtrip(tkey, how, payload):
+def native_roundtrip(tkey, how, payload, protocol=None):
     cls = TYPES[tkey]
     kw = build_payload(payload)
     if "obj" in kw and how == "pickle":
@@ -875,7 +875,7 @@ def native_roundtrip(tkey, how, payload):
         elif how == "deepcopy":
             v = time_limited(lambda: copy.deepcopy(u))
         else:
-            v = time_limited(lambda: pickle.loads(pickle.dumps(u, pickle.HIGHEST_PROTOCOL)))
+            v = time_limited(lambda: pickle.loads(pickle.dumps(u, pickle.HIGHEST_PROTOCOL if protocol is None else protocol)))
     except NativeTimeout as e:
         TIMEOUTS.append(f"{tkey}.{how}")
         return (False, f"{how}({tkey}({kw})): undecided, {e}")
@@ -889,6 +889,7 @@ def native_roundtrip(tkey, how, payload):
         same = (a is b) if how == "copy" or s in ("_undefined_exception",) or a is missing else (type(a) is type(b) and (a == b or isinstance(a, Holder)))
         if not same:
             bad.append(f"{s}: {a!r} -> {b!r}")
+    how = how if protocol is None else f"{how}[protocol {protocol}]"
     return (bool(bad), f"{how}({tkey}({kw})): {'payload changed: ' + ', '.join(bad) if bad else 'same type and payload'}")
 
 
@@ -1110,18 +1111,20 @@ def run_misc(task, tier, seed):
     res = []
     for tkey in TYPES:
         for how in ("copy", "deepcopy", "pickle"):
-            if how == "pickle" and tkey in LOGGING_BASE:
-                continue  # a class created inside make_logging_undefined cannot be pickled by reference (not a table column)
             t0 = time.time()
-            fails = []
-            for p in NATIVE_PAYLOADS:
-                v, d = native_roundtrip(tkey, how, p)
-                if v:
-                    fails.append((d, {"kind": "roundtrip", "type": tkey, "how": how, "payload": p}))
-                    break
+            fails, bad_protocols = [], []
+            # pickle: the statement names the operation without a protocol, so every protocol of the interpreter is a cell
+            for proto in (range(pickle.HIGHEST_PROTOCOL + 1) if how == "pickle" else [None]):
+                for p in NATIVE_PAYLOADS:
+                    v, d = native_roundtrip(tkey, how, p, proto)
+                    if v:
+                        fails.append((d, {"kind": "roundtrip", "type": tkey, "how": how, "payload": p, "protocol": proto}))
+                        bad_protocols.append(proto)
+                        break
             nm = f"C21.table.{tkey}.{how}"
             if fails:
-                res.append(Res(nm, "refuted", "native", time.time() - t0, fails[0][0], "table", fails[0][1]))
+                wit = dict(fails[0][1], failing_protocols=bad_protocols)
+                res.append(Res(nm, "refuted", "native", time.time() - t0, (f"protocols {bad_protocols}: " if how == "pickle" else "") + fails[0][0], "table", wit))
             else:
                 res.append(Res(nm, "discharged", "native", time.time() - t0, f"{len(NATIVE_PAYLOADS)} payloads: same type and payload", "table"))
         t0 = time.time()
@@ -1138,10 +1141,96 @@ def run_misc(task, tier, seed):
     return res
 
 
+# --------------------------------------------------------------------------------------------
+# other operands: the binary operators (both orders) against a set of operands, on the real classes
+# --------------------------------------------------------------------------------------------
+# The cells above show that type(u).__op__ / __rop__ fail as documented.  Whether `x op u` ever reaches type(u).__rop__ is
+# decided by the other operand (A3); the statement quantifies over "a set of other operands", so the operands a template
+# actually produces are enumerated here: when x's own method handles the operation itself the table is NOT met.
+BINARY = [a for a in ARITH] + ["r" + a for a in ARITH] + ["lt", "le", "gt", "ge"]
+
+
+def operand_set():
+    from markupsafe import Markup
+    return {"int": 42, "float": 1.5, "bool": True, "none": None, "str": "abc", "str_format": "%s-%d", "empty_str": "",
+            "markup": Markup("<b>"), "list": [1], "tuple": (1,), "dict": {"a": 1}, "set": {1}}
+
+
+def operand_failures(op):
+    """-> (failing {type: [operand keys]}, number of native executions, first detail)"""
+    failing, n, first = {}, 0, ""
+    for tkey in TYPES:
+        if entry(tkey, op)[0] != "fail":
+            continue
+        for okey, x in operand_set().items():
+            for p in (NATIVE_PAYLOADS[0], NATIVE_PAYLOADS[1]):
+                kw = build_payload(p)
+                u = TYPES[tkey](**kw)
+                n += 1
+                try:
+                    got = ("value", time_limited(lambda: NATIVE_OPS[op](u, x)))
+                except NativeTimeout:
+                    continue
+                except BaseException as e:  # noqa: B902
+                    got = ("raise", e)
+                ok = got[0] == "raise" and type(got[1]) is UndefinedError and message_names(kw, str(got[1]))
+                if not ok:
+                    failing.setdefault(tkey, [])
+                    if okey not in failing[tkey]:
+                        failing[tkey].append(okey)
+                    if not first:
+                        shown = f"{x!r} {op} u" if op.startswith("r") and op[1:] in ARITH else f"u {op} {x!r}"
+                        first = f"{tkey}({kw}) [{shown}]: expected UndefinedError naming the variable, got {got!r}"
+    return failing, n, first
+
+
+def run_operands(task, tier, seed):
+    res = []
+    for op in BINARY:
+        t0 = time.time()
+        failing, n, first = operand_failures(op)
+        nm = f"C21.operands.{op}"
+        if failing:
+            flat = sorted(f"{t}:{o}" for t, os_ in failing.items() for o in os_)
+            t_first = sorted(failing)[0]
+            wit = {"kind": "operand", "op": op, "type": t_first, "operand": failing[t_first][0], "failing": flat}
+            res.append(Res(nm, "refuted", "native", time.time() - t0, f"{len(flat)} (type, operand) pairs: {first}", "table", wit))
+        else:
+            res.append(Res(nm, "discharged", "native", time.time() - t0, f"{n} native executions raise UndefinedError naming the variable", "table"))
+    return res
+
+
+def replay_operand(w):
+    failing, n, first = operand_failures(w["op"])
+    return (bool(failing), first or f"{w['op']}: all {n} executions raise UndefinedError")
+
+
+class OperandTask(Task):
+    kind = "table"
+    prop = "C21"
+    name = "C21.operands"
+
+    def run(self, tier, seed):
+        return run_operands(self, tier, seed)
+
+    def replay(self, w):
+        return replay_operand(w)
+
+    def finding_key(self, res):
+        w = res.witness or {}
+        return ",".join(w.get("failing", []))
+
+
 class MiscTask(Task):
     kind = "table"
     prop = "C21"
     name = "C21.table.roundtrips_and_tests"
+
+    def finding_key(self, res):
+        w = res.witness or {}
+        if w.get("kind") == "roundtrip":
+            return f"{w.get('type')}.{w.get('how')}:protocols=" + ",".join(str(x) for x in w.get("failing_protocols", []))
+        return f"{w.get('type')}:{w.get('kind')}"
 
     def run(self, tier, seed):
         return run_misc(self, tier, seed)
@@ -1181,6 +1270,7 @@ for _t in TYPES:
     for _i, _ops in enumerate(_split(OPS, 1)):
         TASKS.append(TypeTask(_t, _ops, f"#{_i}"))
 TASKS.append(MiscTask())
+TASKS.append(OperandTask())
 TASKS.append(Group("C21.message", [MessageVC(c) for c in PAYLOAD_CASES] + [TypeReprVC()]))
 TASKS.append(Group("C21.tests", [TestsVC(w, t) for w in ("defined", "undefined", "default") for t in list(TYPES) + ["opaque"]]))
 
@@ -1198,7 +1288,6 @@ META = {
         "the configured exception class is represented by UndefinedError and by a private subclass of TemplateRuntimeError unknown to the code",
         "type names are identifier-like, so repr() of object_type_repr's result shows the type name verbatim",
         "A6 user subclasses respect the contracts of the methods they override",
-        "pickle of a make_logging_undefined class is outside the table (the class is local to the factory call)",
         "logging variants: records are demanded only where make_logging_undefined documents them (print, iteration, truth test, failing "
         "attribute access); operator aliases that bypass the logging override are not required to log (correction of DESIGN A.2)",
     ],
